@@ -401,10 +401,9 @@ Proof.
 Qed.
 
 (* a server without the modern verbs: the client's VFS fallbacks give the same machine, except that
-   the Repository.iter_revisions discrepancy disappears with the verb and generate_revision_history
-   of an absent revision raises the local class again *)
+   the Repository.iter_revisions discrepancy disappears with the verb *)
 Definition old_quirk (rs : bool) (o : op) : bool :=
-  match o with GetRev _ => negb rs | GenHist _ => true | _ => false end.
+  match o with GetRev _ => negb rs | _ => false end.
 Definition old_quirk_free (rs : bool) (ops : list op) : bool := forallb (fun o => negb (old_quirk rs o)) ops.
 
 Lemma step_old_irrelevant rs x o : old_quirk rs o = false ->
